@@ -100,6 +100,31 @@ CLAIMED = {
               "(thorough). relator_permutations (BTreeSet) is excluded."),
         note=("Decided: reducedness, equality with the oracle free reduction, group laws, strict total order, relator "
               "representative = least rotation/inverse rotation. Not decided: relator_permutations, longer words.")),
+    "C11": dict(
+        design_ref="DESIGN.md §4 C11",
+        engine="gen11",
+        quick_cmd="python3 engine/gen11.py check --tier quick",
+        thorough_cmd="python3 engine/gen11.py check --tier thorough",
+        replay="python3 engine/gen11.py replay {path}",
+        technique=("input-free configurations (parameter-only presentation family x subgroup pattern) are executed once "
+                   "from the current tree; validity of the returned table and representatives is a ground formula over "
+                   "the constants; 'exactly [G:H] rows' is decided by SMT (z3 QF_BV, re-run with cvc5): "
+                   "unsat(exists a transitive action on more points that satisfies the relators with the subgroup "
+                   "fixing a point), for every size up to the stated bound; sat models are replayed natively"),
+        text=("PARTIAL. For 20 (thorough: 33) input-free configurations — dihedral, cyclic, free abelian, free, "
+              "triangle and surface groups with the subgroup patterns trivial / whole group / <g1> / <g1 g2> / "
+              "<g^m> / <g1 g2 g1, g2> — the real coset_table and coset_representative built from the current tree are "
+              "run; every generator acts as a permutation whose inverse is the action of the inverse generator, the "
+              "action is transitive, every relator traced from every row returns, every subgroup generator traced "
+              "from row 0 returns to row 0, every representative traced from row 0 ends in its row (ground checks), "
+              "and the table has exactly [G:H] rows: a valid table has at most [G:H] rows, and the solver shows that "
+              "no transitive action on more points (up to 9, thorough 10) satisfies the relators with the subgroup "
+              "fixing a point. NOT decided: arbitrary presentations and subgroup words. One recorded finding "
+              "(known_findings.txt): H = <aba, b> in D_3 / (2,3,3) yields a 2-row table violating a relator."),
+        note=("coset_table's code is never modelled: for an input-free configuration its execution is a plain run; the "
+              "solver's part is the index. Trusted base: rustc (release profile), z3 4.8.12 / cvc5 1.0, the QF_BV "
+              "encoding in engine/gen12.py + gen11.py, native/verif_c11.rs. Two defects found by this check were "
+              "repaired in /repo (fix: commits e3c92cb, b94bde8); a third is recorded, not repaired.")),
     "C12": dict(
         design_ref="DESIGN.md §4 C12",
         engine="gen12",
@@ -113,7 +138,8 @@ CLAIMED = {
                    "unsat(exists an equivalence between two output tables); sat models are replayed natively"),
         text=("PARTIAL. For presentations determined by integer parameters alone — free groups F_1..F_3 (F_4), free "
               "abelian Z^2, Z^3 (Z^4), dihedral D_3, D_4 (D_5, D_6), cyclic C_6 (C_8), the genus-2 surface group, "
-              "triangle groups (2,3,3), (2,3,7) (and (2,3,4), (2,3,5), (2,3,6), (2,4,4)) — and index bounds k of 3..8, "
+              "triangle groups (2,3,3), (2,3,7) (and (2,3,4), (2,3,5), (2,3,6), (2,4,4)), <a,b | a, b^m> (a generator "
+              "declared trivial) and <a,b,c | c a^m, c^-1 b> (redundant generators) — and index bounds k of 3..8, "
               "the real coset_tables enumeration built from the current tree is run and its tables are turned into "
               "constants; an SMT solver decides over the whole universe of transitive actions on r <= k points that "
               "satisfy the relators (symbolic permutations) that each is equivalent to an output table (every "
@@ -165,7 +191,6 @@ NOT_APPLICABLE = {
     "C07": "generator filter builds orbifold symbols as Strings (fmt), needs automorphisms and a back-tracking stack",
     "C08": "curvature/orbifold_symbol go through Traversal, oriented_cover, HashSet and String",
     "C09": "Boundary is a HashMap, words live in BTreeMap/BTreeSet; oracle is a group isomorphism, not a bounded first-order statement",
-    "C11": "BTreeSet<FreeWord> relator expansion, union-find in every table access, trip counts = group order",
     "C13": "HashMap/HashSet keyed by Vec<usize>; inputs are C11/C12 objects; oracle is a group isomorphism",
     "C15": "whole pipeline (covers, coset tables, stabiliser, invariants) on symbols with tens of chambers",
     "C16": "whole pipeline on symbols with hundreds of chambers; HashSet iteration order inside network_cut",
@@ -221,6 +246,13 @@ def main():
             "serves_properties": ["C06"],
             "kind_free_text": "native run of the input-free generator from the current tree + SMT-LIB (QF_BV) queries over "
                               "the universe of D-sets and over bijections, z3 with cvc5 cross-check, native replay",
+        }, {
+            "name": "gen11",
+            "path": "engine/gen11.py",
+            "serves_properties": ["C11"],
+            "kind_free_text": "native run of coset_table / coset_representative on input-free configurations from the "
+                              "current tree + ground validity + SMT-LIB (QF_BV) 'no larger transitive action' queries, "
+                              "z3 with cvc5 cross-check, native replay",
         }, {
             "name": "gen12",
             "path": "engine/gen12.py",
